@@ -7,8 +7,8 @@ out=${REGRESSION_OUT:-seeded/REGRESSION.txt}
 tmp=$(mktemp -d /tmp/reseed.XXXXXX)
 ls -d seeded/*/ | while read d; do
   d=${d%/}
-  id=$(python3 -c "import json;print(json.load(open('$d/meta.json'))['breaks_property'])")
-  echo "$d $id"
+  id=$(python3 -c "import json;m=json.load(open('$d/meta.json'));print('-' if m.get('obsolete') else m['breaks_property'])")
+  [ "$id" = "-" ] || echo "$d $id"
 done > $tmp/list
 xargs -P $jobs -L 1 sh -c 'd=$0; id=$1; r=$(./tools/try_patch.sh "$d/patch.diff" $id 2>&1 | grep "^$id rc=" | cut -c1-160); echo "$(basename $d): $r"' < $tmp/list > $tmp/res
 { echo "# every seeded change against the quick check of its property, $(date -u +%Y-%m-%dT%H:%MZ), /verif $(git rev-parse --short HEAD), /repo $(git -C /repo rev-parse --short HEAD)"; sort $tmp/res; } > $out
